@@ -611,6 +611,20 @@ func (d *brokerDrv) Step(line string) string {
 			return apiExtra(d, pos, m)
 		}
 		return d.collect("")
+	case "pause": // the scripted client stops reading; what the broker writes meanwhile is seen at `resume`
+		c := d.b.Conns[pos[0]]
+		if c == nil || c.EOF() {
+			return "no-conn"
+		}
+		c.Pause()
+		return d.collect("")
+	case "resume":
+		c := d.b.Conns[pos[0]]
+		if c == nil || c.EOF() {
+			return "no-conn"
+		}
+		c.Resume()
+		return d.collect("")
 	case "sleep":
 		time.Sleep(time.Duration(drv.Atoi(pos[0])) * time.Millisecond)
 		return d.collect("")
